@@ -4,6 +4,7 @@ import (
 	"fmt"
 	"math"
 	"strconv"
+	"regexp"
 	"strings"
 
 	"github.com/philhassey/goatlang"
@@ -23,6 +24,7 @@ type MItem struct {
 	Vid    int     `json:"vid,omitempty"`
 	OnIter int     `json:"on_iter,omitempty"` // only in the n-th iteration of the enclosing loop (0 = every)
 	Cursor int     `json:"cursor,omitempty"`
+	Miss   int     `json:"miss,omitempty"` // getmiss: the level (1..Nest) at which the outer key is missing
 	Max    int     `json:"max,omitempty"` // abandon the loop after this many iterations (0 = run to exhaustion)
 	Body   []MItem `json:"body,omitempty"`
 }
@@ -38,10 +40,13 @@ type MPlan struct {
 	OptimizeOff bool    `json:"optimize_off,omitempty"`
 	OneLine     bool    `json:"one_line,omitempty"` // script driver: the whole body on one source line (nested loops share a line)
 	NilStart    int     `json:"nil_start,omitempty"` // script driver: the map variable starts as a nil map; the first N items (reads only) run against it
+	Nest        int     `json:"nest,omitempty"`     // the map under test is a value 1 or 2 levels inside map[string]map[string]...: a["a"]["b"]; getmiss items read through a missing or nil level
 	Literal     bool    `json:"literal,omitempty"`  // the initial pairs are given to the constructor / a map literal with computed keys (repeats allowed: the last wins, as in Go)
 }
 
 type mapiter struct{}
+
+var mRe = regexp.MustCompile(`\bm\b`)
 
 func init() { core.Register(mapiter{}) }
 
@@ -64,13 +69,14 @@ func (mapiter) Describe() core.EngineInfo {
 		Real:       []string{"goatlang stringMap/numericMap (Set/Get/Delete/Len/Range, key-list compaction), NewMap, codes SET/GET/GETOK/DELETE/LEN/RANGE/ITER and fused FASTGET/FASTSET through the compiler and VM"},
 		Stubs:      []string{"Go's randomised map iteration inside the key-list compaction -> seeded permutation (hook verifOrderStrings/verifOrderFloats)"},
 		Assumes:    []string{"no order is required of a range", "NaN keys excluded (as the property says)", "+0 and -0 are one key (as in Go)"},
-		ProbesWant: []string{"compactions", "cursor_across_compaction", "reinsert", "delete_ahead_of_cursor", "delete_behind_cursor", "delete_current", "insert_during_loop", "nested_cursors", "driver_host", "driver_script", "maps_keys", "one_line_script", "literal_with_repeated_key", "nil_map_start", "exhausted", "abandoned"},
+		ProbesWant: []string{"compactions", "cursor_across_compaction", "reinsert", "delete_ahead_of_cursor", "delete_behind_cursor", "delete_current", "insert_during_loop", "nested_cursors", "driver_host", "driver_script", "maps_keys", "one_line_script", "literal_with_repeated_key", "nil_map_start", "nested_map", "nested_miss", "exhausted", "abandoned"},
 	}
 }
 
 // --- generation --------------------------------------------------------------
 
 type mGen struct {
+	nest   int
 	r      *core.PRNG
 	u      int
 	id     int
@@ -94,6 +100,9 @@ func (g *mGen) item(depth int, inLoop bool) MItem {
 		it.Kind, it.Key = "del", key
 	case k < 62:
 		it.Kind, it.Key = "get", key
+		if g.nest > 0 && g.r.Chance(1, 2) {
+			it.Kind, it.Miss = "getmiss", 1+g.r.Intn(g.nest)
+		}
 	case k < 69:
 		it.Kind, it.Key = "getok", key
 	case k < 72:
@@ -142,7 +151,10 @@ func (e mapiter) genPlan(r *core.PRNG) *MPlan {
 	}
 	p.OneLine = p.Driver == "script" && r.Chance(1, 3)
 	p.Literal = r.Chance(1, 3)
-	g := &mGen{r: r, u: p.Universe}
+	if r.Chance(1, 4) {
+		p.Nest = 1 + r.Intn(2)
+	}
+	g := &mGen{r: r, u: p.Universe, nest: p.Nest}
 	ni := r.Intn(p.Universe + 1)
 	for i := 0; i < ni; i++ {
 		p.Initial = append(p.Initial, r.Intn(p.Universe))
@@ -380,6 +392,7 @@ type mRun struct {
 	p              *MPlan
 	res            *core.Result
 	h              *core.Host
+	outer          goatlang.Value
 	data           map[int]int // key -> vid
 	gen            map[int]int // key -> liveness generation
 	cursors        map[int]*mCursor
@@ -455,6 +468,18 @@ func (run *mRun) onGet(id, key int, v goatlang.Value, ok, withOk bool) {
 		run.fail("C10/get", map[bool]string{true: "stale", false: "zero"}[live], "op %d: lookup of key %d returned %s, want %s", id, key, describe(v), what)
 	}
 	run.note("g")
+}
+
+// onMiss: a lookup through a missing outer key (a nil inner map) is the zero value of the innermost element type.
+func (run *mRun) onMiss(id int, v goatlang.Value, ok, withOk bool) {
+	if withOk && ok {
+		run.fail("C10/get", "ok", "op %d: comma-ok lookup through a missing outer key says ok=true", id)
+	}
+	if !run.p.elemIs(v, 0) {
+		run.fail("C10/get", "zero", "op %d: lookup through a missing outer key (nil inner map) returned %s, want the zero value of the element type", id, describe(v))
+	}
+	run.h.C.Inc("nested_miss")
+	run.note("G")
 }
 
 func (run *mRun) onLen(id, n int) {
@@ -587,6 +612,20 @@ func (run *mRun) hostBlock(m goatlang.Value, items []MItem, cu *mCursor, iter in
 		case "getok":
 			v, ok := m.Get(run.p.keyValue(it.Key))
 			run.onGet(it.ID, it.Key, v, ok, true)
+		case "getmiss":
+			if run.p.Nest == 0 {
+				break
+			}
+			cur := run.outer
+			for lvl := 1; lvl <= run.p.Nest; lvl++ {
+				name := []string{"a", "b"}[lvl-1]
+				if lvl == it.Miss || lvl == run.p.Nest && it.Miss > lvl {
+					name = "zz"
+				}
+				cur, _ = cur.Get(goatlang.String(name))
+			}
+			v, ok := cur.Get(run.p.keyValue(it.Key))
+			run.onMiss(it.ID, v, ok, true)
 		case "len":
 			run.onLen(it.ID, m.Len())
 		case "keys":
@@ -647,8 +686,34 @@ func (run *mRun) rawKey(model int) goatlang.Value { return run.p.keyValue(model)
 
 // --- script driver ----------------------------------------------------------------
 
+// mx is the expression that names the map under test in the script.
+func (p *MPlan) mx() string { return []string{"m", `o["a"]`, `o["a"]["b"]`}[p.Nest] }
+
+// mtype wraps the map type in Nest levels of map[string].
+func (p *MPlan) mtype(inner string) string { return strings.Repeat("map[string]", p.Nest) + inner }
+
+// mwrap gives the value of the outermost variable whose innermost map is rhs.
+func (p *MPlan) mwrap(inner, rhs string, elide bool) string {
+	switch p.Nest {
+	case 1:
+		return fmt.Sprintf("map[string]%s{\"a\": %s}", inner, rhs)
+	case 2:
+		if elide {
+			return fmt.Sprintf("map[string]map[string]%s{\"a\": {\"b\": %s}}", inner, rhs)
+		}
+		return fmt.Sprintf("map[string]map[string]%s{\"a\": map[string]%s{\"b\": %s}}", inner, inner, rhs)
+	}
+	return rhs
+}
+
 func (p *MPlan) renderItems(b *strings.Builder, items []MItem, ind string, cur int) {
-	ln := func(f string, a ...any) { fmt.Fprintf(b, ind+f+"\n", a...) }
+	lnRaw := func(f string, a ...any) { fmt.Fprintf(b, ind+f+"\n", a...) }
+	ln := func(f string, a ...any) {
+		if p.Nest > 0 {
+			f = mRe.ReplaceAllLiteralString(f, p.mx())
+		}
+		lnRaw(f, a...)
+	}
 	for i := range items {
 		it := &items[i]
 		open := ""
@@ -669,6 +734,24 @@ func (p *MPlan) renderItems(b *strings.Builder, items []MItem, ind string, cur i
 		case "getok":
 			ln("g%d, o%d := m[%s]", it.ID, it.ID, p.keyLit(it.Key))
 			ln("host.GetOk(%d, g%d, o%d)", it.ID, it.ID, it.ID)
+		case "getmiss":
+			if p.Nest == 0 {
+				break
+			}
+			path := ""
+			for lvl := 1; lvl <= p.Nest; lvl++ {
+				name := []string{"a", "b"}[lvl-1]
+				if lvl == it.Miss || lvl == p.Nest && it.Miss > lvl {
+					name = "zz"
+				}
+				path += fmt.Sprintf("[%q]", name)
+			}
+			if it.ID%2 == 0 {
+				lnRaw("host.Miss(%d, o%s[%s])", it.ID, path, p.keyLit(it.Key))
+			} else {
+				lnRaw("g%d, o%d := o%s[%s]", it.ID, it.ID, path, p.keyLit(it.Key))
+				lnRaw("host.MissOk(%d, g%d, o%d)", it.ID, it.ID, it.ID)
+			}
 		case "len":
 			ln("host.Len(%d, len(m))", it.ID)
 		case "keys":
@@ -712,10 +795,16 @@ func (p *MPlan) render() string {
 	var b strings.Builder
 	_, _, ks, es := p.types()
 	b.WriteString("package main\nimport \"host\"\nimport \"golang.org/x/exp/maps\"\ntype T struct { A int }\nvar negZero = host.NegZero()\n")
+	inner := fmt.Sprintf("map[%s]%s", ks, es)
+	mvar := "m"
+	if p.Nest > 0 {
+		mvar = "o"
+	}
+	elide := p.Seed%2 == 0
 	if p.NilStart > 0 {
-		fmt.Fprintf(&b, "var m map[%s]%s\n", ks, es)
+		fmt.Fprintf(&b, "var %s %s\n", mvar, p.mtype(inner))
 	} else {
-		fmt.Fprintf(&b, "var m = map[%s]%s{}\n", ks, es)
+		fmt.Fprintf(&b, "var %s = %s\n", mvar, p.mwrap(inner, map[bool]string{true: "{}", false: inner + "{}"}[elide && p.Nest > 0], elide))
 	}
 	var body strings.Builder
 	if p.Literal && len(p.Initial) > 0 {
@@ -725,13 +814,17 @@ func (p *MPlan) render() string {
 			fmt.Fprintf(&body, "\tkv%d := %s\n", i, p.keyLit(k))
 			pairs = append(pairs, fmt.Sprintf("kv%d: %s", i, p.elemLit(2000+i)))
 		}
-		fmt.Fprintf(&body, "\tm = map[%s]%s{%s}\n", ks, es, strings.Join(pairs, ", "))
+		if p.Nest > 0 && p.Seed%3 == 0 {
+			fmt.Fprintf(&body, "\t%s = %s{%s}\n", p.mx(), inner, strings.Join(pairs, ", "))
+		} else {
+			fmt.Fprintf(&body, "\t%s = %s\n", mvar, p.mwrap(inner, map[bool]string{true: "", false: inner}[elide && p.Nest > 0]+"{"+strings.Join(pairs, ", ")+"}", elide))
+		}
 		for i, k := range p.Initial {
 			fmt.Fprintf(&body, "\thost.InitLit(%d, %d)\n", k, 2000+i)
 		}
 	} else {
 		for _, k := range p.Initial {
-			fmt.Fprintf(&body, "\tm[%s] = %s; host.Init(%d)\n", p.keyLit(k), p.elemLit(1000+k), k)
+			fmt.Fprintf(&body, "\t%s[%s] = %s; host.Init(%d)\n", p.mx(), p.keyLit(k), p.elemLit(1000+k), k)
 		}
 	}
 	if p.NilStart > 0 {
@@ -745,7 +838,7 @@ func (p *MPlan) render() string {
 			n++
 		}
 		p.renderItems(&body, p.Items[:n], "\t", 0)
-		fmt.Fprintf(&body, "\tm = map[%s]%s{}\n", ks, es)
+		fmt.Fprintf(&body, "\t%s = %s\n", mvar, p.mwrap(inner, map[bool]string{true: "{}", false: inner + "{}"}[elide && p.Nest > 0], elide))
 		p.renderItems(&body, p.Items[n:], "\t", 0)
 	} else {
 		p.renderItems(&body, p.Items, "\t", 0)
@@ -807,6 +900,8 @@ func (run *mRun) natives(vm *goatlang.VM) {
 			run.onGet(it.ID, it.Key, a[1], a[2].Bool(), true)
 		}
 	}))
+	vm.Set("host.Miss", goatlang.NewFunc(2, 0, func(v *goatlang.VM, a []goatlang.Value) { run.onMiss(a[0].Int(), a[1], false, false) }))
+	vm.Set("host.MissOk", goatlang.NewFunc(3, 0, func(v *goatlang.VM, a []goatlang.Value) { run.onMiss(a[0].Int(), a[1], a[2].Bool(), true) }))
 	vm.Set("host.Keys", goatlang.NewFunc(3, 0, func(v *goatlang.VM, a []goatlang.Value) {
 		run.onKeys(a[0].Int(), map[int]string{0: "maps.Keys", 1: "maps.Clone"}[a[1].Int()], a[2])
 	}))
@@ -848,6 +943,9 @@ func (mapiter) Execute(plan any, keep bool) *core.Result {
 	if p.NilStart > 0 && p.Driver == "script" {
 		run.h.C.Inc("nil_map_start")
 	}
+	if p.Nest > 0 && p.Driver == "script" {
+		run.h.C.Inc("nested_map")
+	}
 	if p.Literal {
 		seenK := map[int]bool{}
 		for _, k := range p.Initial {
@@ -873,6 +971,23 @@ func (mapiter) Execute(plan any, keep bool) *core.Result {
 			}
 		}
 		m := goatlang.NewMap(kt, et, init)
+		if p.Nest > 0 {
+			// the map under test sits 1-2 levels inside string-keyed maps, and is fetched back through them
+			t := goatlang.TypeMap | kt<<8 | et<<16 // Value.Type() answers the base type only; composite types are packed elem<<16 | key<<8 | base
+			inner := m
+			for lvl := p.Nest; lvl >= 1; lvl-- {
+				o := goatlang.NewMap(goatlang.TypeString, t, nil)
+				o.Set(goatlang.String([]string{"a", "b"}[lvl-1]), inner)
+				inner, t = o, goatlang.TypeMap|goatlang.TypeString<<8|t<<16
+			}
+			run.outer = inner
+			cur := inner
+			for lvl := 1; lvl <= p.Nest; lvl++ {
+				cur, _ = cur.Get(goatlang.String([]string{"a", "b"}[lvl-1]))
+			}
+			m = cur
+			run.h.C.Inc("nested_map")
+		}
 		for i, k := range p.Initial {
 			if p.Literal {
 				run.onSet(k, 2000+i)
@@ -971,6 +1086,10 @@ func (mapiter) Shrink(plan any) []func() any {
 	}
 	if p.Literal {
 		mod(func(q *MPlan) { q.Literal = false })
+	}
+	if p.Nest > 0 {
+		mod(func(q *MPlan) { q.Nest = 0 })
+		mod(func(q *MPlan) { q.Nest = 1 })
 	}
 	return out
 }
